@@ -401,7 +401,12 @@ Definition mesh_add_cell (o : opts) (faces : list (list Z)) (hfs : list Z) : R (
           else do r <- hex_reorder faces hfs;
                match r with
                | None => Ret None
-               | Some hfs' => base_add_cell faces hfs' true
+               | Some hfs' =>
+                   (* "The re-ordering only succeeds for halffaces that really form a hexahedron": every slot is_valid()
+                      (idx >= 0), and the re-ordered list passes check_halfface_ordering *)
+                   if existsb (fun x => x <? 0) hfs' then Ret None
+                   else do ord2 <- check_halfface_ordering faces hfs';
+                        if ord2 then base_add_cell faces hfs' true else Ret None
                end
       else Ret None
   end.
@@ -463,8 +468,8 @@ Definition read_vertices_chunk (o : opts) (h : fhdr) (st : rst) (d : dec) : R (r
   if negb (is_valid_VertexEncoding enc) then state_error S_ErrorInvalidEncoding
   else
     do _ <- validate_span (h_nv h) (r_nvr st) first count;
-    let pos_size := elem_size_VertexEncoding enc * h_dim h in       (* int *)
-    if negb (len d3 =? c_uint (count * pos_size)) then state_error S_ErrorInvalidChunkSize
+    let pos_size := elem_size_VertexEncoding enc * h_dim h in       (* uint64_t pos_size = uint8 * uint8 *)
+    if negb (len d3 =? count * pos_size) then state_error S_ErrorInvalidChunkSize      (* uint64_t pos_size: count < 2^32, pos_size <= 8 * 255 *)
     else if enc =? VertexEncoding_None then
       (* call_with_decoder(None): nothing is read; the vertices keep their default position *)
       Ret (add_verts count (repeat (zero_pos (Z.to_nat (o_dim o))) (Z.to_nat count)) st, d3)
@@ -545,7 +550,7 @@ Definition read_topo_chunk (o : opts) (h : fhdr) (st : rst) (d : dec) : R (rst *
                if venc =? IntEncoding_None then state_error S_ErrorInvalidFile
                else do r <- read_n_ints venc count (fun x => Ret x) d6; let (vals, d7) := r in
                     Ret (Some vals, fold_left Z.add vals 0, d7)
-             else Ret (None, c_uint (valence * count), d6));
+             else Ret (None, valence * count, d6));                    (* static_cast<uint64_t>(valence) * count: a byte times 32 bits *)
     let '(vals, total_handles, d7) := v in
     let expected := wrap64 (total_handles * elem_size_IntEncoding henc) in
     if negb (len d7 =? expected) then state_error S_Error
